@@ -222,6 +222,32 @@ def feature_case(rng, style):
         m = b.bin(rng.choice(["min", "max"]), plane(b, rng, xyz, p0, offset=1.0)[0], plane(b, rng, xyz, p0, offset=1.0)[0])
         other = rng.choice([xyz[2], plane(b, rng, xyz, p0, offset=0.5)[0]])
         root = b.bin("mul", m, b.bin("add", m, other))
+    elif style == "axis":
+        # A bare coordinate is a DIRECT operand of a non-linear binary clause whose other operand is a tied
+        # min/max of two (shifted) coordinates: the evaluator replicates the coordinate's row into the lanes of
+        # the features (the `filled` bookkeeping), so stale lanes show only with this shape.  The tie locus
+        # u == v contains many lattice points: several of them are returned.
+        ax = rng.sample(range(3), 2)
+        offs = [rng.choice([0, 0, 0.5, -0.25, 1.0]) for _ in range(2)]
+        def shifted(i, o):
+            return xyz[i] if o == 0 else b.bin("add", xyz[i], b.const(o))
+        m = b.bin(rng.choice(["min", "max"]), shifted(ax[0], offs[0]), shifted(ax[1], offs[1]))
+        if rng.random() < 0.4:      # a second tied level on top
+            third = [i for i in range(3) if i not in ax][0]
+            m = b.bin(rng.choice(["min", "max"]), m, shifted(third, rng.choice([0, 0.5])))
+        w = xyz[rng.choice(ax + [rng.randrange(3)])]
+        op = rng.choice(["mul", "mul", "div", "atan2"])
+        root = b.bin(op, m, w) if rng.random() < 0.6 else b.bin(op, w, m)
+        if rng.random() < 0.3:
+            root = b.bin("add", root, b.const(rng.choice([0.5, -1.0])))
+        pts = []
+        for _ in range(4):
+            q = list(lattice_point(rng))
+            q[ax[1]] = q[ax[0]] + offs[0] - offs[1]          # u == v exactly
+            if op in ("div", "atan2") and q[rng.choice(ax)] == 0:
+                q[ax[0]] += 0.5; q[ax[1]] += 0.5
+            pts.append(tuple(q))
+        return b, root, pts
     else:
         raise ValueError(style)
     # a few neighbours: some still on a tie of a subset of planes, most not
